@@ -950,12 +950,28 @@ def replaced_predicate(uni, solver, d):
     if not hasattr(rf, "_replacement"):
         return ""
     exprs = [d["e"]] if "e" in d else d.get("es", [])
+    if isinstance(d.get("v"), str):
+        exprs = exprs + [d["v"]]          # solution(e, v) with a symbolic v: both sides
     try:
         if exprs and all((not rf._replacement(uni.parse(e)).symbolic) for e in exprs) and any(uni.parse(e).symbolic for e in exprs):
             return ":replaced-to-constant"
     except Exception:  # noqa: BLE001
         pass
     return ""
+
+
+def classify_replaced(uni, ref, solver, d, out, j):
+    """the `replaced-to-constant` predicate on a judged answer: value-on-unsat of eval / batch_eval / min / max, and its
+    solution() form - True on constraints (with the extra ones) that have no model, both sides constants after replacement
+    (ConcreteHandlerMixin then compares two numbers and never looks at the constraints)"""
+    if j and j[0] == "value-on-unsat":
+        return (j[0] + replaced_predicate(uni, solver, d), j[1])
+    if j and j[0] == "wrong-solution" and out[0] == "ok" and out[1] and \
+            ref.satmask(d["s"], [uni.parse(c) for c in d.get("extra", [])]) == 0:
+        pred = replaced_predicate(uni, solver, d)
+        if pred:
+            return ("value-on-unsat" + pred, j[1])
+    return j
 
 
 def structure_predicate(solver, d):
@@ -1265,9 +1281,7 @@ def run_history(uni, cls, cfg, hist, on_step=None, checks=None):
                     elif origin[d["s"]] in ("split", "combine", "merge", "blank_copy"):
                         j = (j[0] + ":on-%s-result" % origin[d["s"]], j[1])
             else:
-                j = judge(uni, ref, d, out)
-                if j and j[0] == "value-on-unsat":
-                    j = (j[0] + replaced_predicate(uni, solvers[d["s"]], d), j[1])
+                j = classify_replaced(uni, ref, solvers[d["s"]], d, out, judge(uni, ref, d, out))
             if j:
                 fails.append((k, j[0], j[1]))
             if on_step:
